@@ -56,6 +56,8 @@ type Unit struct {
 	loopOrdOf   map[ast.Node]int
 	nLoops      int
 	loopPre     map[int]*State
+	sawPoolGet  bool
+	poolCase    string
 }
 
 type Exit struct {
